@@ -27,7 +27,7 @@ NOTES = {
  "C16": "PARTIAL: diagonal, direct (any admissible pivot set), second-quantised solvers and KPM loop control proved; sparse LU, QR pivot choice, Chebyshev convergence are runtime (residual-tested).",
  "C17": "Full theorems on the (R, L) model; SciPy's LinearOperator composition classes are exercised (composites, adjoints, right multiplication), not modelled.",
  "C18": "Full theorems (loop = Cauchy sum, tuple order, half-sum, value = power-series product); request logs are compared with the model but decide only as a broken correspondence.",
- "C19": "PARTIAL: exactly-once, values, self-reference on the machine proved; the item resolution (NumPy's rule for integers, lists, forward slices + the trial array) is modelled and proved to give NumPy's selection on any large enough dense array, in bounds, each selected element once; the model's NumPy rule itself is tested against NumPy on every run, not proved; masking of zero entries by the harness.",
+ "C19": "PARTIAL: exactly-once, values, self-reference on the machine proved; the item resolution (NumPy's rule for integers, lists, forward slices + the trial array) is modelled and proved to give NumPy's selection on any large enough dense array, in bounds, each selected element once; views (finite-dimension-only items) are modelled as the code builds them and proved to show NumPy's selection followed by the orders; the model's NumPy rule itself is tested against NumPy on every run, not proved; masking of zero entries by the harness.",
  "C20": "PARTIAL: set-up decision logic modelled and characterised exactly; shared energies proved for both algorithms; SymPy's Hermiticity test, the numerical orthonormality test and float finiteness by correspondence.",
 }
 checks = []
